@@ -89,6 +89,9 @@ structure Env where
   comp : Doc → List Completion
   valid : Doc → Option Text
   sugg : Doc → Option Text
+  /-- `str.isspace` of the running interpreter (used by `strip()` in
+      `start_history_lines_completion`) -/
+  isSpace : Char → Bool
 
 structure St where
   text : Text
@@ -298,6 +301,35 @@ def fromPos (position : Nat) (c : Completion) : Completion :=
 def setCompletions (s : St) (comps : List Completion) : St :=
   { s with cs := some ⟨s.doc, comps, none, s.nextTok⟩, nextTok := s.nextTok + 1 }
 
+/-! ### `start_history_lines_completion` : a menu that does not come from the completer -/
+
+def notNl (c : Char) : Bool := c != '\n'
+
+/-- `Document.current_line_before_cursor` -/
+def lineBeforeCursor (d : Doc) : Text := (d.before.reverse.takeWhile notNl).reverse
+
+def lstrip (sp : Char → Bool) (t : Text) : Text := t.dropWhile sp
+def strip (sp : Char → Bool) (t : Text) : Text := ((t.dropWhile sp).reverse.dropWhile sp).reverse
+
+/-- the loop over the lines of the (only) working line: stripped, non-empty, starting with the
+    current line, not seen before -/
+def histLoop (sp : Char → Bool) (cl : Text) : List Text → List Text → List Completion
+  | [], _ => []
+  | l :: ls, seen =>
+    let l' := strip sp l
+    if !l'.isEmpty && isPrefixOf' cl l' && !seen.contains l' then
+      ⟨l', -(cl.length : Int)⟩ :: histLoop sp cl ls (l' :: seen)
+    else histLoop sp cl ls seen
+
+/-- the completions `start_history_lines_completion` builds for document `d` when the history
+    is empty (`_working_lines == [text]`), already reversed -/
+def histComps (sp : Char → Bool) (d : Doc) : List Completion :=
+  (histLoop sp (lstrip sp (lineBeforeCursor d)) (splitOn '\n' d.text) []).reverse
+
+/-- `Buffer.start_history_lines_completion()` : `_set_completions(..)`, `go_to_completion(0)` -/
+def histComplete (cfg : Config) (env : Env) (s : St) : St × Bool :=
+  goToCompletion cfg (setCompletions s (histComps env.isSpace s.doc)) (some 0)
+
 /-- The outcome of one coroutine segment: the new state and what becomes of the task
     (`none` = the coroutine returned and `_only_one_at_a_time` cleared its flag). -/
 abbrev Seg := St × Option Task
@@ -443,6 +475,22 @@ def resumeTask (cfg : Config) (env : Env) (s : St) (i : Nat) : St :=
   | some (.sWait doc) => finishSeg (sugResume env (dropTask s i) doc)
   | _ => s
 
+/-- The asyncio task is cancelled (the Application exits): `CancelledError` is raised at the
+    await, the `finally` of `_only_one_at_a_time` clears the flag.  A task that has not
+    taken its first step is just dropped (its body never runs). -/
+def killFlags (s : St) : Task → St
+  | .cLoad .. => { s with runC := false }
+  | .vWait _ => { s with runV := false }
+  | .sWait _ => { s with runS := false }
+  | .cPend _ => s
+  | .vPend => s
+  | .sPend => s
+
+def cancelTask (s : St) (i : Nat) : St :=
+  match s.tasks[i]? with
+  | some t => killFlags (dropTask s i) t
+  | none => s
+
 /-! ### the transition system -/
 
 inductive Act
@@ -459,8 +507,10 @@ inductive Act
   | apply (c : Completion)
   | validateSync
   | reset (t : Text) (c : Nat)
+  | histComplete
   | start (i : Nat)
   | resume (i : Nat)
+  | kill (i : Nat)
 deriving Repr
 
 /-- one step; the flag reports an exception escaping from a user-level call -/
@@ -478,8 +528,10 @@ def step (cfg : Config) (env : Env) (s : St) : Act → St × Bool
   | .apply c => applyCompletion cfg s c
   | .validateSync => (validateSync cfg env s, false)
   | .reset t c => (reset s t (min c t.length), false)
+  | .histComplete => histComplete cfg env s
   | .start i => (startTask s i, false)
   | .resume i => (resumeTask cfg env s i, false)
+  | .kill i => (cancelTask s i, false)
 
 def run (cfg : Config) (env : Env) (s : St) (as : List Act) : St :=
   as.foldl (fun s a => (step cfg env s a).1) s
